@@ -40,6 +40,10 @@ CHECKS = {
  'C08': dict(sec='3/C08', tech='TLC on Streaming.tla (exhaustive small constants) + literal replay of every small file into the real streaming loop + TraceStreaming.tla validation of full-scale recorded runs (real constants, CLI included)',
              text='Streaming.tla has one action per branch of the line loop and the tail; ConsumedExactly, InvalidCounted, CheckpointIsMedianSoFar, OutputAscending are model-checked for every file of Good/Bad lines around every batch/tail boundary; every small file is replayed through the real estimate_importances_minibatches; full-scale executions (minibatch 1100-4096, tail sizes 1023/1024/1025, malformed rows at boundaries) are recorded at the loop linearisation points and validated event by event, every checkpoint table and the written file included.',
              note='exhaustive files up to 8-16 lines; full-scale runs are seeded; scores compared as scaled integers with tolerance 2 units on doubled medians'),
+
+ 'C13': dict(sec='3/C13', tech='TLC on DataQuality.tla (arbitrary batch cuts, ghost of consumed rows) + replay of every history into the real compute_coverage/compute_cardinalities/compute_value_counts + TraceQuality.tla on recorded multi-split runs + CLI outputs across minibatch sizes',
+             text='DataQuality.tla lets the environment append rows and consume the buffer at arbitrary moments, so every composition of the row count is explored; CardinalityExact, HistogramExact, RareReportExact, CoverageIsPerBatch compare the process-global state with the exact recomputation over the ghost of consumed rows, which makes split-independence a one-run invariant; every history is replayed through the real functions; per-batch states of real runs over one file with several minibatch sizes are validated by TraceQuality.tla and compared across splits; the CLI annotations, value_repetitions.json and rare_values.tsv are compared across splits and with the recomputation.',
+             note='exhaustive histories of <=5 rows; recorded runs of 1200-3000 rows; cardinality in the exact phase of the sketch'),
 }
 
 checks = []
